@@ -249,11 +249,11 @@ theorem rangeKd_iff (k : Kind) : rangeKd (.num k) = true ↔ RangeK k := by
   cases k <;> simp [rangeKd, RangeK, Kind.rank]
 
 /-- a literal range becomes the constant with the same elements; only the allocation differs -/
-theorem constRange_equiv (m ma mb : Meta) (lo hi : Int) (st : St) (ha : IntLitOK ma lo) (hb : IntLitOK mb hi)
-    (hsz : inRange .int (hi - lo + 1)) (hs : c.rangeSizeSigned = true → lo ≤ hi + 1) (ctx : Ctx) :
-    RelM (eval c ctx (constRangeRule (.binary m ".." (.int ma lo) (.int mb hi)) st).1)
+theorem constRange_equiv (fl : Flags) (m ma mb : Meta) (lo hi : Int) (st : St) (ha : IntLitOK ma lo) (hb : IntLitOK mb hi)
+    (hsz : fl.constRangeNoOverflow = false → inRange .int (hi - lo + 1)) (hs : c.rangeSizeSigned = true → lo ≤ hi + 1) (ctx : Ctx) :
+    RelM (eval c ctx (constRangeRule fl (.binary m ".." (.int ma lo) (.int mb hi)) st).1)
          (eval c ctx (.binary m ".." (.int ma lo) (.int mb hi))) :=
-  (constRange_sound _ (by simp only [ConstRangeOK]; exact fun _ => ⟨ha, hb, hsz, hs⟩) st).ev ctx
+  (constRange_sound fl _ (by simp only [ConstRangeOK]; exact fun _ => ⟨ha, hb, hsz, hs⟩) st).ev ctx
 
 /-- a ConstExpr call whose compile-time evaluation succeeds is replaced by its result: sound when the
     arguments evaluate to the values passed (#11) and the registered function is the environment's -/
@@ -328,7 +328,7 @@ def GuardOK (c : SCfg) (fl : Flags) (fns : ConstFns) : Pass → Node → Prop
   | .fold, N => FoldOKf fl N
   | .constExpr, N => ConstExprOK c fl fns N
   | .inRange, N => InRangeOK c fl N
-  | .constRange, N => ConstRangeOK c N
+  | .constRange, N => ConstRangeOK c fl N
 
 /-- the optimizer restricted to rewrite sites that satisfy their guards produces a tree that simulates
     the original one -/
@@ -346,14 +346,14 @@ theorem optimizeWith_sim (fl : Flags) (fns : ConstFns) (g : Guard)
       (guarded_sim g .fold _ (fun N st hN => fold_sound_f fl c.world N (hg _ _ hN) st)) _ _ _ (s1.re hn) h2
     have s12 := s2.trans s1
     have tail : ∀ n3, Sim c n3 n →
-        Sim c (walk fl.walkSliceNode (guarded g .constRange constRangeRule)
+        Sim c (walk fl.walkSliceNode (guarded g .constRange (constRangeRule fl))
           (walk fl.walkSliceNode (guarded g .inRange (inRangeRule fl)) n3 {}).1 {}).1 n := by
       intro n3 s123
       have s4 := walk_sim (c := c) fl.walkSliceNode (guarded g .inRange (inRangeRule fl))
         (guarded_sim g .inRange _ (fun N st hN => inRange_sound fl N (hg _ _ hN) st)) n3 (s123.re hn) {}
       have s1234 := s4.trans s123
-      have s5 := walk_sim (c := c) fl.walkSliceNode (guarded g .constRange constRangeRule)
-        (guarded_sim g .constRange _ (fun N st hN => constRange_sound N (hg _ _ hN) st)) _ (s1234.re hn) {}
+      have s5 := walk_sim (c := c) fl.walkSliceNode (guarded g .constRange (constRangeRule fl))
+        (guarded_sim g .constRange _ (fun N st hN => constRange_sound fl N (hg _ _ hN) st)) _ (s1234.re hn) {}
       exact s5.trans s1234
     split at h
     · cases h; exact tail n2 s12
@@ -445,7 +445,7 @@ theorem fold_divzero_location (fl : Flags) (w : World) (m ma mb : Meta) (op : St
 
 /-- `in_array`, `in_range` and `const_range` never reject -/
 theorem other_passes_never_reject (fl : Flags) (N : Node) (st : St) :
-    (inArrayRule fl N st).2 = st ∧ (inRangeRule fl N st).2 = st ∧ (constRangeRule N st).2 = st := by
+    (inArrayRule fl N st).2 = st ∧ (inRangeRule fl N st).2 = st ∧ (constRangeRule fl N st).2 = st := by
   refine ⟨?_, ?_, ?_⟩
   · unfold inArrayRule
     split
@@ -465,8 +465,12 @@ theorem other_passes_never_reject (fl : Flags) (N : Node) (st : St) :
     · split
       · simp only []
         split
-        · rfl
-        · split <;> rfl
+        · split
+          · rfl
+          · split <;> rfl
+        · split
+          · rfl
+          · split <;> rfl
       · rfl
     · rfl
 
@@ -680,6 +684,22 @@ theorem budget_witness :
     (Spec.run (cfg (.map []) 10) none t13).1 = .error .budget :=
   ⟨⟨_, rfl, rfl⟩, ⟨_, rfl, rfl⟩, rfl⟩
 
+/-- `len(0..9223372036854775807)` -/
+def t14 : Node := .builtin (mI 0) "len" [.binary (mA 5) ".." (.int (mI 4) 0) (.int (mI 7) 9223372036854775807)]
+
+/-- the code as it is, with the proposed repair of const_range.go in place -/
+def Flags.next : Flags := { Flags.asIs with constRangeNoOverflow := true }
+
+/-- (c02:const-range-size-overflow) `size := max - min + 1` wraps below 1 for a range of 2^63 elements, and
+    const_range.go folds it to the EMPTY constant: `len(0..9223372036854775807)` is 0 when optimised, while the
+    range itself exceeds every budget.  With emptiness decided by `max < min` the fold is skipped.
+    (On the real VM the deviation is masked as long as OpRange computes its size with the same overflow.) -/
+theorem const_range_overflow_witness :
+    (∃ n', optimize Flags.asIs [] w0 t14 = .ok n' ∧ (Spec.run (cfg (.map [])) none n').1 = .ok (.int .int 0)) ∧
+    (Spec.run (cfg (.map [])) none t14).1 = .error .budget ∧
+    optimize Flags.next [] w0 t14 = .ok t14 :=
+  ⟨⟨_, rfl, rfl⟩, rfl, rfl⟩
+
 theorem fnsOfEnv_nil (c : SCfg) : FnsOfEnv c [] := by intro _ _ h; cases h
 
 /-- the full-strength statement is false of the code as it is … -/
@@ -792,7 +812,7 @@ def GuardNow (c : SCfg) (fns : ConstFns) : Pass → Node → Prop
     ∀ id, fns.lookup name = some id → ∀ vs, callMember c.world c.env name vs = c.world.call id vs
   | .inRange, .binary _ _ l (.binary _ _ (.int mf a) (.int mt b)) =>
     IntLitOK mf a ∧ IntLitOK mt b ∧ KindSound c l ∧ (c.rangeSizeSigned = true → a ≤ b + 1)
-  | .constRange, N => ConstRangeOK c N
+  | .constRange, N => ConstRangeOK c Flags.asIs N
   | _, _ => True
 
 /-- for the code as it is now the fold guard asks nothing about the annotation of the literals of `+ - * /` -/
